@@ -19,8 +19,7 @@ def run(ctx):
     exe = pc.build_parfor(ctx)
     bg = pc.Background(ctx, exe, WHAT)
     bg.start('gran')
-    ctx.check_model(pc.SPEC, 'MCParFor.tla', 'MC_c13_w6.cfg' if thorough else 'MC_c13_quick.cfg', WHAT,
-                    workers=4, timeout=2400, label='all ranges x g x static/adaptive x wait')
+    pc.model(ctx, 'MCParFor.tla', 'MC_c13_w6.cfg' if thorough else 'MC_c13_quick.cfg', WHAT, 'all ranges x g x static/adaptive x wait')
     pc.negative_control(ctx, 'MCParFor.tla', 'MC_neg_align.cfg',
                         'stripe ends aligned to absolute multiples of the granularity')
     for suite, tr, tot in bg.join():
